@@ -40,9 +40,10 @@ INPUTS = {
     "with_comments": "// head\nmodule c; /* c */ wire w; // t\n/* m\n l */ endmodule // end\n",
     "kept_directives": "`timescale 1ns/1ps\n`default_nettype none\nmodule d; `celldefine wire w; `endcelldefine endmodule\n",
     "string_nl": "import \"DPI-C\"\n  function void f();\nmodule e; endmodule\n",
+    "lib_kw": "library logic *.v, rtl/top.sv;\ninclude x.map;\n",      # a library map whose library name is reserved in 1800 but not in 1364
     "big": "module v; " + " ".join("wire w%d;" % i for i in range(400)) + " endmodule\n",
 }
-ENTRIES = ["preprocess_str", "parse_sv_str", "parse_sv_str_inc", "parse_lib_str", "raw_sv", "raw_lib", "raw_pp", "raw_sv_incomplete"]
+ENTRIES = ["preprocess_str", "parse_sv_str", "parse_sv_str_inc", "parse_lib_str", "raw_sv", "raw_lib", "raw_pp", "raw_sv_incomplete", "raw_lib_incomplete"]
 
 
 def call(entry, inp):
@@ -70,7 +71,7 @@ def run(tier, seed):
                                                     "pp_reject", "big", "library", "accepted", "old_ident",
                                                     "unterminated_ifdef", "bad_timescale", "stray_backtick", "include_noname", "stray_else", "bad_nettype")]
     probe_inputs = ["accepted", "uses_new_kw", "old_ident", "open_region", "library", "parse_reject_deep", "pp_reject", "resetall_first",
-                    "with_comments", "kept_directives", "string_nl"]
+                    "with_comments", "kept_directives", "string_nl", "lib_kw"]
     probes = [(e, i) for (e, i) in ops if i in probe_inputs]
     hists = [(p,) for p in polluters]
     pairs = list(itertools.product(polluters, polluters))
